@@ -76,7 +76,11 @@ def sorts : List String := ["node/sync.go:SnapshotPayouts:sort.Slice"]
 
 def timeNow : List String := ["node/pegnet/admin.go:markHeightSyncedVersion:time.Now", "node/sync.go:DBlockSync:time.Now", "node/sync.go:DBlockSync:time.Now", "node/sync.go:DBlockSync:time.Now", "node/sync.go:SnapshotPayouts:time.Now", "node/sync.go:DevelopersPayouts:time.Now"]
 
-def sharedState : List String := ["cmd/root.go:always:cmd:go:func() {\n\t<-signalChan\n\tlog.Info(\"Gracefully closing\")\n\texit.GlobalExitHandler.Close()\n\n\tlog.Info(\"closing application\")\n\n\tos.Exit(0)\n}", "node/average.go:GetPegNetRateAverages:node:LastAveragesHeight", "node/average.go:GetPegNetRateAverages:node:LastAverages", "node/average.go:GetPegNetRateAverages:node:LastAveragesData", "node/average.go:GetPegNetRateAverages:node:LastAveragesData", "node/average.go:GetPegNetRateAverages:node:LastAveragesHeight", "node/average.go:GetPegNetRateAverages:node:LastAverages", "node/average.go:GetPegNetRateAverages:node:LastAveragesHeight", "node/average.go:GetPegNetRateAverages:node:LastAveragesHeight", "node/average.go:GetPegNetRateAverages:node:LastAveragesHeight", "node/node.go:NewPegnetd:node:Synced", "node/sync.go:GetCurrentSync:node:Synced", "node/sync.go:DBlockSync:node:Synced", "node/sync.go:DBlockSync:node:Synced", "node/sync.go:DBlockSync:node:Synced", "node/sync.go:DBlockSync:node:Synced", "node/sync.go:DBlockSync:node:Synced", "node/sync.go:DBlockSync:node:Synced", "node/sync.go:DBlockSync:node:Synced", "node/sync.go:DBlockSync:node:Synced", "node/sync.go:DBlockSync:node:Synced", "node/sync.go:DBlockSync:node:Synced", "node/sync.go:DBlockSync:node:Synced", "node/sync.go:DBlockSync:node:Synced", "node/sync.go:DBlockSync:node:Synced", "node/sync.go:DBlockSync:node:Synced", "node/sync.go:DBlockSync:node:Synced", "node/sync.go:DBlockSync:node:Synced", "node/sync.go:DBlockSync:node:Synced", "node/sync.go:DBlockSync:node:Synced", "node/sync.go:DBlockSync:node:Synced", "node/sync.go:DBlockSync:node:Synced", "node/sync.go:DBlockSync:node:Synced", "node/sync.go:SyncBlock:node:Synced", "node/sync.go:SyncBlock:node:Synced", "node/sync.go:multiFetch:node:go:func() {\n\n\tdefer func() {\n\t\trecover()\n\t}()\n\n\tfor j := range work {\n\t\terrs <- eblock.Entries[j].Get(nil, c)\n\t}\n}", "srv/methods.go:getBank:srv:Synced", "srv/methods.go:getMiningDominance:srv:Synced", "srv/methods.go:getMiningDominance:srv:Synced", "srv/methods.go:getMiningDominance:srv:Synced", "srv/methods.go:getGlobalRichList:srv:call:GetCurrentSync", "srv/methods.go:getGlobalRichList:srv:call:GetPegNetRateAverages", "srv/methods.go:getRichList:srv:call:GetCurrentSync", "srv/methods.go:getRichList:srv:call:GetPegNetRateAverages", "srv/methods.go:getPegnetRates:srv:Synced", "srv/methods.go:getSyncStatus:srv:call:GetCurrentSync", "srv/methods.go:getSyncStatus:srv:call:GetCurrentSync", "srv/methods.go:getGraded:srv:Synced", "srv/srv.go:Start:srv:go:func() {\n\tvar err error\n\n\terr = srv.ListenAndServe()\n\n\tif err != http.ErrServerClosed {\n\t\tlog.Errorf(\"srv.ListenAndServe(): %v\", err)\n\t}\n\tclose(_done)\n}", "srv/srv.go:Start:srv:go:func() {\n\tselect {\n\tcase <-stop:\n\t\tif err := srv.Shutdown(nil); err != nil {\n\t\t\tlog.Errorf(\"srv.Shutdown(): %v\", err)\n\t\t}\n\tcase <-_done:\n\t}\n}"]
+def sharedState : List String := ["node/average.go:GetPegNetRateAverages:node:LastAveragesHeight", "node/average.go:GetPegNetRateAverages:node:LastAverages", "node/average.go:GetPegNetRateAverages:node:LastAveragesData", "node/average.go:GetPegNetRateAverages:node:LastAveragesData", "node/average.go:GetPegNetRateAverages:node:LastAveragesHeight", "node/average.go:GetPegNetRateAverages:node:LastAverages", "node/average.go:GetPegNetRateAverages:node:LastAveragesHeight", "node/average.go:GetPegNetRateAverages:node:LastAveragesHeight", "node/average.go:GetPegNetRateAverages:node:LastAveragesHeight", "node/node.go:NewPegnetd:node:Synced", "node/sync.go:GetCurrentSync:node:Synced", "node/sync.go:DBlockSync:node:Synced", "node/sync.go:DBlockSync:node:Synced", "node/sync.go:DBlockSync:node:Synced", "node/sync.go:DBlockSync:node:Synced", "node/sync.go:DBlockSync:node:Synced", "node/sync.go:DBlockSync:node:Synced", "node/sync.go:DBlockSync:node:Synced", "node/sync.go:DBlockSync:node:Synced", "node/sync.go:DBlockSync:node:Synced", "node/sync.go:DBlockSync:node:Synced", "node/sync.go:DBlockSync:node:Synced", "node/sync.go:DBlockSync:node:Synced", "node/sync.go:DBlockSync:node:Synced", "node/sync.go:DBlockSync:node:Synced", "node/sync.go:DBlockSync:node:Synced", "node/sync.go:DBlockSync:node:Synced", "node/sync.go:DBlockSync:node:Synced", "node/sync.go:DBlockSync:node:Synced", "node/sync.go:DBlockSync:node:Synced", "node/sync.go:DBlockSync:node:Synced", "node/sync.go:DBlockSync:node:Synced", "node/sync.go:SyncBlock:node:Synced", "node/sync.go:SyncBlock:node:Synced", "srv/methods.go:getBank:srv:Synced", "srv/methods.go:getMiningDominance:srv:Synced", "srv/methods.go:getMiningDominance:srv:Synced", "srv/methods.go:getMiningDominance:srv:Synced", "srv/methods.go:getGlobalRichList:srv:call:GetCurrentSync", "srv/methods.go:getGlobalRichList:srv:call:GetPegNetRateAverages", "srv/methods.go:getRichList:srv:call:GetCurrentSync", "srv/methods.go:getRichList:srv:call:GetPegNetRateAverages", "srv/methods.go:getPegnetRates:srv:Synced", "srv/methods.go:getSyncStatus:srv:call:GetCurrentSync", "srv/methods.go:getSyncStatus:srv:call:GetCurrentSync", "srv/methods.go:getGraded:srv:Synced"]
+
+def apiSharedState : List String := ["srv/methods.go:getBank:srv:Synced", "srv/methods.go:getMiningDominance:srv:Synced", "srv/methods.go:getMiningDominance:srv:Synced", "srv/methods.go:getMiningDominance:srv:Synced", "srv/methods.go:getGlobalRichList:srv:call:GetCurrentSync", "srv/methods.go:getGlobalRichList:srv:call:GetPegNetRateAverages", "srv/methods.go:getRichList:srv:call:GetCurrentSync", "srv/methods.go:getRichList:srv:call:GetPegNetRateAverages", "srv/methods.go:getPegnetRates:srv:Synced", "srv/methods.go:getSyncStatus:srv:call:GetCurrentSync", "srv/methods.go:getSyncStatus:srv:call:GetCurrentSync", "srv/methods.go:getGraded:srv:Synced"]
+
+def goStatements : List String := ["cmd/root.go:always:cmd:go:func() {", "node/sync.go:multiFetch:node:go:func() {", "srv/srv.go:Start:srv:go:func() {", "srv/srv.go:Start:srv:go:func() {"]
 
 def missing : List String := []
 
